@@ -5,7 +5,10 @@
 
      CStart    RLock; closed := tdsChan.closed; RUnlock; closed -> return ErrChannelClosed
                (a new RLock is blocked while a Lock is pending or held)
-     CSend     CurrentHeaderType = TDS_BUF_CLOSE; sendPacket(teardown)        -- no lock is held here: this is the window
+     CCas      if !atomic.CompareAndSwapInt32(&tdsChan.closing, 0, 1) { return ErrChannelClosed }
+               one atomic step: exactly the first closer to get here goes on, every other one returns at once (possibly
+               before the first one has finished)
+     CSend     CurrentHeaderType = TDS_BUF_CLOSE; sendPacket(teardown)        -- no lock is held here
      CLockReq  tdsChan.Lock() announced
      CLockAcq  ... granted when nobody holds the lock (the closers' read locks are released at once; goroutines that
                hold the read lock for long are the subject of C13/Model.v)
@@ -17,17 +20,19 @@
      CUnlock   deferred Unlock; return nil, or the list of errors if packages were still queued
      CDone c   returned: 0 nil | 1 its own error list | 2 ErrChannelClosed | -1 panicked
 
-   `c_recheck` says whether CMark re-checks `closed` (true = the code as it is; false = the code without the re-check:
-   the counter-model of C13_concurrent_close_unchecked_refuted).  A label is the index of the closer that moves; a move
-   that is not possible (blocked, returned) is None.  No proofs in this file. *)
+   `c_guard` says whether the compare-and-swap is there, `c_recheck` whether CMark re-checks `closed` (true / true = the
+   code as it is; the others are the counter-models of C13_concurrent_close_*_refuted).  A label is the index of the
+   closer that moves; a move that is not possible (blocked, returned) is None.  No proofs in this file. *)
 From Coq Require Import ZArith List Bool.
 Import ListNotations.
 From V Require Import Base.Tree Base.Bytes C13.Model.
 Open Scope Z_scope.
 
 Record csys := mkC {
+  c_guard : bool;
   c_recheck : bool;
   c_left : bool;          (* packages are left in the queue: the closer that drains it returns an error list *)
+  c_closing : bool;       (* tdsChan.closing != 0 *)
   c_closed : bool;
   c_nil : bool;           (* packageCh == nil *)
   c_registered : bool;
@@ -39,8 +44,8 @@ Record csys := mkC {
   c_pcs : list cpc
 }.
 
-Definition cinit (recheck left : bool) (n : nat) : csys :=
-  mkC recheck left false false true 0 0 0 false false (repeat CStart n).
+Definition cinit (guard recheck left : bool) (n : nat) : csys :=
+  mkC guard recheck left false false false true 0 0 0 false false (repeat CStart n).
 
 Fixpoint upd {A} (i : nat) (x : A) (l : list A) {struct l} : list A :=
   match l with
@@ -49,8 +54,8 @@ Fixpoint upd {A} (i : nat) (x : A) (l : list A) {struct l} : list A :=
   end.
 
 Definition cset (s : csys) (i : nat) (pc : cpc) : csys :=
-  mkC (c_recheck s) (c_left s) (c_closed s) (c_nil s) (c_registered s) (c_unregs s) (c_teardowns s) (c_pending s)
-      (c_wheld s) (c_panic s) (upd i pc (c_pcs s)).
+  mkC (c_guard s) (c_recheck s) (c_left s) (c_closing s) (c_closed s) (c_nil s) (c_registered s) (c_unregs s) (c_teardowns s)
+      (c_pending s) (c_wheld s) (c_panic s) (upd i pc (c_pcs s)).
 
 Definition cstep (s : csys) (i : nat) : option csys :=
   match nth_error (c_pcs s) i with
@@ -59,35 +64,39 @@ Definition cstep (s : csys) (i : nat) : option csys :=
     match pc with
     | CStart =>
         if (0 <? c_pending s) || c_wheld s then None
-        else Some (cset s i (if c_closed s then CDone 2 else CSend))
+        else Some (cset s i (if c_closed s then CDone 2 else CCas))
+    | CCas =>
+        if c_guard s && c_closing s then Some (cset s i (CDone 2))
+        else Some (mkC (c_guard s) (c_recheck s) (c_left s) true (c_closed s) (c_nil s) (c_registered s) (c_unregs s) (c_teardowns s)
+                       (c_pending s) (c_wheld s) (c_panic s) (upd i CSend (c_pcs s)))
     | CSend =>
-        Some (mkC (c_recheck s) (c_left s) (c_closed s) (c_nil s) (c_registered s) (c_unregs s) (c_teardowns s + 1) (c_pending s)
-                  (c_wheld s) (c_panic s) (upd i CLockReq (c_pcs s)))
+        Some (mkC (c_guard s) (c_recheck s) (c_left s) (c_closing s) (c_closed s) (c_nil s) (c_registered s) (c_unregs s) (c_teardowns s + 1)
+                  (c_pending s) (c_wheld s) (c_panic s) (upd i CLockReq (c_pcs s)))
     | CLockReq =>
-        Some (mkC (c_recheck s) (c_left s) (c_closed s) (c_nil s) (c_registered s) (c_unregs s) (c_teardowns s) (c_pending s + 1)
-                  (c_wheld s) (c_panic s) (upd i CLockAcq (c_pcs s)))
+        Some (mkC (c_guard s) (c_recheck s) (c_left s) (c_closing s) (c_closed s) (c_nil s) (c_registered s) (c_unregs s) (c_teardowns s)
+                  (c_pending s + 1) (c_wheld s) (c_panic s) (upd i CLockAcq (c_pcs s)))
     | CLockAcq =>
         if c_wheld s then None
-        else Some (mkC (c_recheck s) (c_left s) (c_closed s) (c_nil s) (c_registered s) (c_unregs s) (c_teardowns s) (c_pending s - 1)
-                       true (c_panic s) (upd i CMark (c_pcs s)))
+        else Some (mkC (c_guard s) (c_recheck s) (c_left s) (c_closing s) (c_closed s) (c_nil s) (c_registered s) (c_unregs s) (c_teardowns s)
+                       (c_pending s - 1) true (c_panic s) (upd i CMark (c_pcs s)))
     | CMark =>
         if c_recheck s && c_closed s
-        then Some (mkC (c_recheck s) (c_left s) (c_closed s) (c_nil s) (c_registered s) (c_unregs s) (c_teardowns s) (c_pending s)
-                       false (c_panic s) (upd i (CDone 2) (c_pcs s)))
-        else Some (mkC (c_recheck s) (c_left s) true (c_nil s) (c_registered s) (c_unregs s) (c_teardowns s) (c_pending s)
-                       (c_wheld s) (c_panic s) (upd i CUnreg (c_pcs s)))
+        then Some (mkC (c_guard s) (c_recheck s) (c_left s) (c_closing s) (c_closed s) (c_nil s) (c_registered s) (c_unregs s) (c_teardowns s)
+                       (c_pending s) false (c_panic s) (upd i (CDone 2) (c_pcs s)))
+        else Some (mkC (c_guard s) (c_recheck s) (c_left s) (c_closing s) true (c_nil s) (c_registered s) (c_unregs s) (c_teardowns s)
+                       (c_pending s) (c_wheld s) (c_panic s) (upd i CUnreg (c_pcs s)))
     | CUnreg =>
-        Some (mkC (c_recheck s) (c_left s) (c_closed s) (c_nil s) false (c_unregs s + 1) (c_teardowns s) (c_pending s)
-                  (c_wheld s) (c_panic s) (upd i CDrain (c_pcs s)))
+        Some (mkC (c_guard s) (c_recheck s) (c_left s) (c_closing s) (c_closed s) (c_nil s) false (c_unregs s + 1) (c_teardowns s)
+                  (c_pending s) (c_wheld s) (c_panic s) (upd i CDrain (c_pcs s)))
     | CDrain =>
         if c_nil s
-        then Some (mkC (c_recheck s) (c_left s) (c_closed s) (c_nil s) (c_registered s) (c_unregs s) (c_teardowns s) (c_pending s)
-                       false true (upd i (CDone (-1)) (c_pcs s)))
-        else Some (mkC (c_recheck s) (c_left s) (c_closed s) true (c_registered s) (c_unregs s) (c_teardowns s) (c_pending s)
-                       (c_wheld s) (c_panic s) (upd i CUnlock (c_pcs s)))
+        then Some (mkC (c_guard s) (c_recheck s) (c_left s) (c_closing s) (c_closed s) (c_nil s) (c_registered s) (c_unregs s) (c_teardowns s)
+                       (c_pending s) false true (upd i (CDone (-1)) (c_pcs s)))
+        else Some (mkC (c_guard s) (c_recheck s) (c_left s) (c_closing s) (c_closed s) true (c_registered s) (c_unregs s) (c_teardowns s)
+                       (c_pending s) (c_wheld s) (c_panic s) (upd i CUnlock (c_pcs s)))
     | CUnlock =>
-        Some (mkC (c_recheck s) (c_left s) (c_closed s) (c_nil s) (c_registered s) (c_unregs s) (c_teardowns s) (c_pending s)
-                  false (c_panic s) (upd i (CDone (if c_left s then 1 else 0)) (c_pcs s)))
+        Some (mkC (c_guard s) (c_recheck s) (c_left s) (c_closing s) (c_closed s) (c_nil s) (c_registered s) (c_unregs s) (c_teardowns s)
+                  (c_pending s) false (c_panic s) (upd i (CDone (if c_left s then 1 else 0)) (c_pcs s)))
     | _ => None        (* returned; the other program counters belong to channel 0 / Conn.Close *)
     end
   end.
@@ -101,8 +110,9 @@ Definition all_returned (s : csys) : bool := forallb is_cdone (c_pcs s).
 
 Definition ccode (pc : cpc) : Z := match pc with CDone c => c | _ => 9 end.
 
-(* ---- the deterministic schedules of the harness scenarios: every closer up to its teardown write (the transport holds
-   them there), then all of them round robin until nobody moves *)
+(* ---- the deterministic schedule of the harness scenarios: every closer as far as it gets while the transport holds
+   the teardown packets (a closer stops in front of CLockReq: its Write has not returned), then all of them round robin
+   until nobody moves *)
 Fixpoint crun_one (fuel : nat) (s : csys) (i : nat) (stop : cpc -> bool) : csys :=
   match fuel with
   | O => s
@@ -120,32 +130,33 @@ Fixpoint cround (s : csys) (n : nat) : csys :=
 Fixpoint crounds (fuel : nat) (s : csys) : csys :=
   match fuel with O => s | S f => crounds f (cround s (length (c_pcs s))) end.
 
-Definition crun_window (recheck left : bool) (n : nat) : csys :=
-  let s0 := fold_left (fun s i => crun_one 4 s i at_lockreq) (seq 0 n) (cinit recheck left n) in
-  crounds (10 + 2 * n) s0.
+(* the state in which the transport releases the teardown packets *)
+Definition cwindow (guard recheck left : bool) (n : nat) : csys :=
+  fold_left (fun s i => crun_one 5 s i at_lockreq) (seq 0 n) (cinit guard recheck left n).
 
-Definition window_reached (recheck left : bool) (n : nat) : bool :=
-  forallb at_lockreq (c_pcs (fold_left (fun s i => crun_one 4 s i at_lockreq) (seq 0 n) (cinit recheck left n))).
+Definition crun_window (guard recheck left : bool) (n : nat) : csys :=
+  crounds (10 + 2 * n) (cwindow guard recheck left n).
+
+Fixpoint count_pc (f : cpc -> bool) (l : list cpc) : Z :=
+  match l with [] => 0 | x :: r => (if f x then 1 else 0) + count_pc f r end.
 
 (* ---- harness-facing: C12 fn 5 and C13 fn 10
-   input  (nclosers viaconn mode connfirst nother queued numbers-observed)
-   output (window-reached (code ...) teardowns numbers-ok unregistered after-code others-ok connclose-returned reader-ended)
-   codes sorted; mode 0 (closers released together): which numbers the unsynchronised teardown writes carry depends on
-   the schedule, the observation is part of the input and echoed; mode 1 (one closer after the other into the held
-   write): the numbers are 1, 2, ... *)
+   input  (nclosers viaconn mode connfirst nother queued)
+   output (held-at-release (code ...) teardowns numbers-ok unregistered after-code others-ok connclose-returned reader-ended)
+   held-at-release: closers parked in the teardown write when the transport lets the packets go (all the others have
+   returned by then); codes sorted; numbers-ok: the teardown packets carry the numbers 1, 2, ... (the SETUP packet 0) *)
 Fixpoint insert_z (x : Z) (l : list Z) : list Z :=
   match l with [] => [x] | y :: r => if x <=? y then x :: l else y :: insert_z x r end.
 Definition sort_z (l : list Z) : list Z := fold_right insert_z [] l.
 
 Definition run_cclose (i : tree) : tree :=
   let n := Z.to_nat (t_int (t_nth 0 i) + (if t_bool (t_nth 1 i) then 1 else 0)) in
-  let mode := t_int (t_nth 2 i) in
   let left := 0 <? t_int (t_nth 5 i) in
-  let s := crun_window true left n in
-  TL [of_bool (window_reached true left n);
+  let s := crun_window true true left n in
+  TL [TI (count_pc at_lockreq (c_pcs (cwindow true true left n)));
       TL (map TI (sort_z (map ccode (c_pcs s))));
       TI (c_teardowns s);
-      (if mode =? 0 then t_nth 6 i else TI 1);
+      TI 1;
       of_bool (negb (c_registered s));
       TI (if c_closed s then 2 else 3);
       TI 1; TI 1; TI 1].
@@ -155,7 +166,8 @@ Definition run_cclose (i : tree) : tree :=
    interleaving of channel creation, sends, receives and closes": every Close returns (no 9) without a panic (no -1),
    exactly one performs the teardown (nil, or its own error list), every other one reports the closed condition; the
    channel is unregistered, calls on it report closed, the other channels still work, the reader ends with the
-   connection.  C12 also reads the packet numbers of the teardown packets where the schedule determines them. *)
+   connection.  C12 ("outgoing packets carry their channel's id with consecutive packet numbers") also reads the
+   teardown packets: exactly one, carrying the number after the SETUP packet's. *)
 Fixpoint count_z (f : Z -> bool) (l : list Z) : Z :=
   match l with [] => 0 | x :: r => (if f x then 1 else 0) + count_z f r end.
 
@@ -166,6 +178,6 @@ Definition sp_cclose (numbers : bool) (i o : tree) : bool :=
   forallb (fun c => (c =? 0) || (c =? 1) || (c =? 2)) codes &&
   (count_z (fun c => (c =? 0) || (c =? 1)) codes =? 1) &&
   (count_z (fun c => c =? 2) codes =? n - 1) &&
-  (if numbers && (t_int (t_nth 2 i) =? 1) then t_int (t_nth 3 o) =? 1 else true) &&
+  (if numbers then (t_int (t_nth 2 o) =? 1) && (t_int (t_nth 3 o) =? 1) else true) &&
   (t_int (t_nth 4 o) =? 1) && (t_int (t_nth 5 o) =? 2) && (t_int (t_nth 6 o) =? 1) &&
   (t_int (t_nth 7 o) =? 1) && (t_int (t_nth 8 o) =? 1).
